@@ -531,6 +531,16 @@ unsigned int ares_dns_rr_get_ttl(const ares_dns_rr_t *rr)
   if (rr == NULL) {
     return 0;
   }
+
+  /* A record handed out from the query cache carries the time it has spent
+   * cached, every TTL we report must be reduced by that */
+  if (rr->parent != NULL && rr->parent->ttl_decrement > 0) {
+    if (rr->parent->ttl_decrement > rr->ttl) {
+      return 0;
+    }
+    return rr->ttl - rr->parent->ttl_decrement;
+  }
+
   return rr->ttl;
 }
 
